@@ -98,7 +98,7 @@ variable {g : Globals} {rg : RGlobals}
 theorem typed_function (hg : GlobRel g rg) (hn : GNames g) (f : FnDecl) (hok : BodyStmt.anaOKL f.body = true)
     (he : (functionBody g f).errors = []) (hwf : checkFn rg f = []) :
     typedGo (cOkOf g) (fOkOf g) f.result.toTy (functionBody g f).root.context TyEnv.init 0 = [] := by
-  obtain ⟨habs, _, htok⟩ := T2_function hg hn f hok he
+  obtain ⟨habs, _, htok, _⟩ := T2_function hg hn f hok he
   have hev := lock_fn rg f hwf
   rw [← habs] at hev
   rw [List.eq_nil_iff_forall_not_mem]
